@@ -46,6 +46,8 @@ GRAMMARS = {
     "cut": "start = a | b ;\na = 'x' ~ 'y' ;\nb = 'x' 'z' ;\n",
     "two": "start = second $ ;\nfirst = /\\d+/ ;\nsecond = /[a-z]+/ ;\n",
     "bad": "start = undefined_rule $ ;\n",                                # compile error
+    "typed_d": "start = word $ ;\nword::Num = /[a-z]+/ ;\n",                # type name 'Num' again, on another rule
+    "kw_b": "@@keyword :: then else\nstart = name $ ;\n@name\nname = /[a-z]+/ ;\n",  # same rules as 'kw', other keywords
 }
 INPUTS = {
     "ref": ["12 ab", "12", "ab", "7 x", ""],
@@ -64,7 +66,10 @@ INPUTS = {
     "cut": ["x y", "x z", "x", "xy"],
     "two": ["ab", "12"],
     "bad": ["x"],
+    "typed_d": ["ab", "1"],
+    "kw_b": ["x", "if", "then", "else"],
 }
+FAMILIES = [["typed", "typed_b", "typed_c", "params", "typed_d"], ["kw", "icase", "kw_b"], ["ref", "two", "choice", "ws"], ["lrec", "cut", "over", "named", "const"]]
 STARTS = {"two": [None, "first", "second", "nosuch"], "ref": [None, "num", "word"], "choice": [None, "x", "num"]}
 SETTINGS_POOL = [
     {}, {}, {}, {"ignorecase": True}, {"nameguard": False}, {"nameguard": True}, {"parseinfo": True},
@@ -122,6 +127,50 @@ class NumSem(_Counting):
     def start(self, ast, *args, **kwargs):
         self._hit()
         return ["START", ast]
+
+
+def builder_kwargs(spec_b):
+    """Caller-provided model-builder options (compile/parse keyword arguments) from their JSON description."""
+    if not spec_b:
+        return {}
+    from tatsu.objectmodel import Node
+
+    ns = _BUILDER_NS
+    if not ns:
+        class MyBase(Node):
+            pass
+
+        class OtherBase(Node):
+            pass
+
+        class Num(Node):
+            pass
+
+        class Word(Node):
+            pass
+
+        for c in (MyBase, OtherBase, Num, Word):
+            c.__module__ = __name__
+            ns[c.__name__] = c
+    kw = {}
+    if "basetype" in spec_b:
+        kw["basetype"] = ns[spec_b["basetype"]]
+    if "constructors" in spec_b:
+        kw["constructors"] = [ns[n] for n in spec_b["constructors"]]
+    if "typedefs" in spec_b:
+        kw["typedefs"] = [{n: ns[n] for n in spec_b["typedefs"]}]
+    if "synthok" in spec_b:
+        kw["synthok"] = spec_b["synthok"]
+    if "builderconfig" in spec_b:
+        from tatsu.objectmodel.builder import BuilderConfig
+
+        kw["builderconfig"] = BuilderConfig(basetype=ns[spec_b["builderconfig"]])
+    return kw
+
+
+_BUILDER_NS: dict = {}
+BUILDER_POOL = [{"basetype": "MyBase"}, {"basetype": "OtherBase"}, {"constructors": ["Num"]}, {"constructors": ["Num", "Word"]},
+                {"typedefs": ["Num", "Word"]}, {"synthok": False}, {"builderconfig": "MyBase"}, {"basetype": "MyBase", "synthok": False}]
 
 
 def make_sem(kind, fault):
@@ -333,6 +382,7 @@ def exec_op(op, H, probes=None):
                 kw["semantics"] = sem
             if cfg_obj is not None:
                 kw["config"] = cfg_obj
+            kw.update(builder_kwargs(op.get("builder")))
             m = tatsu.compile(GRAMMARS[op["g"]], **kw)
             H[op["out"]] = ("model", m)
             return {"model": dump_model(m)}
@@ -342,6 +392,7 @@ def exec_op(op, H, probes=None):
                 kw["asmodel"] = True
             if sem is not None:
                 kw["semantics"] = sem
+            kw.update(builder_kwargs(op.get("builder")))
             return {"value": canon(tatsu.parse(GRAMMARS[op["g"]], op["text"], **kw))}
         if kind in ("mparse", "pparse"):
             ent = H.get(op["h"])
@@ -456,9 +507,9 @@ def fork_eval(fn, timeout=120.0):
                 chunks.append(b)
     finally:
         os.close(r)
-    os.waitpid(pid, 0)
+    _, status = os.waitpid(pid, 0)
     if not chunks:
-        raise HarnessError("forked evaluation died without a result")
+        raise HarnessError(f"forked evaluation died without a result (wait status {status})")
     kind, val = pickle.loads(b"".join(chunks))
     if kind == "err":
         raise HarnessError("forked evaluation failed:\n" + val)
@@ -587,14 +638,24 @@ def eval_reference(desc):
 _HCTR = [0]
 
 
-def gen_call(rng, handles, models_only=False, allow_fault=True):
-    """One operation.  `handles`: dict h -> creating op (mutated when the op creates a handle)."""
+def gen_call(rng, handles, models_only=False, allow_fault=True, focus=None):
+    """One operation.  `handles`: dict h -> creating op (mutated when the op creates a handle).
+    `focus`: restrict the whole history to one family of related grammars (same type / rule / keyword names)."""
     models = [h for h, c in handles.items() if c["op"] == "compile"]
     parsers = [h for h, c in handles.items() if c["op"] == "load"]
     r = rng.random()
     g = rng.choice(list(GRAMMARS))
-    if rng.random() < 0.5 and handles:
+    k = rng.random()
+    if k < 0.4 and handles:
         g = rng.choice(list(handles.values()))["g"]  # revisit grammars already in the cache
+    elif k < 0.7 and handles:
+        # a *related* grammar: same type names / rule names / keywords with another meaning (cross-grammar contamination)
+        g0 = rng.choice(list(handles.values()))["g"]
+        fam = next((f for f in FAMILIES if g0 in f), None)
+        if fam:
+            g = rng.choice(fam)
+    if focus:
+        g = rng.choice(focus)
     op = None
     if models and r < 0.40:
         h = rng.choice(models)
@@ -604,7 +665,7 @@ def gen_call(rng, handles, models_only=False, allow_fault=True):
             op["start"] = rng.choice(STARTS.get(gg, [None]))
         if rng.random() < 0.25:
             op["sem"] = rng.choice(SEMS)
-        elif rng.random() < 0.2:
+        elif rng.random() < 0.4:
             op["asmodel"] = True
         if rng.random() < 0.2:
             op["settings"] = rng.choice(SETTINGS_POOL)
@@ -627,6 +688,8 @@ def gen_call(rng, handles, models_only=False, allow_fault=True):
               "sem": rng.choice(SEMS) if rng.random() < 0.35 else "none", "settings": rng.choice(SETTINGS_POOL)}
         if rng.random() < 0.1:
             op["cfg"] = rng.choice([{"parseinfo": True}, {"nameguard": False}, {"ignorecase": True}])
+        if op["sem"] == "none" and rng.random() < 0.2:
+            op["builder"] = rng.choice(BUILDER_POOL)
         _HCTR[0] += 1
         h = f"m{_HCTR[0]}"
         op["out"] = h
@@ -636,6 +699,8 @@ def gen_call(rng, handles, models_only=False, allow_fault=True):
               "sem": rng.choice(SEMS) if rng.random() < 0.35 else "none", "settings": rng.choice(SETTINGS_POOL)}
         if rng.random() < 0.2:
             op["start"] = rng.choice(STARTS.get(g, [None]))
+        if op["sem"] == "none" and rng.random() < 0.15:
+            op["builder"] = rng.choice(BUILDER_POOL)
     elif r < 0.91:
         op = {"op": "src", "g": g, "name": rng.choice(NAMES)}
     elif r < 0.94:
@@ -666,15 +731,128 @@ def gen_call(rng, handles, models_only=False, allow_fault=True):
     return op
 
 
+GOOD_INPUT = {"ref": "12 ab", "choice": "a", "typed": "1", "typed_b": "1", "typed_c": "1 a", "typed_d": "ab", "params": "1", "kw": "x", "kw_b": "x",
+              "icase": "x", "ws": "ab cd", "const": "a", "named": "1", "over": "(1)", "lrec": "1", "cut": "x y", "two": "ab"}
+
+
+def gen_pair_history(rng, handles):
+    """Two related grammars (or one grammar twice), each obtained and used in a chosen way, interleaved:
+    the shape in which one call's leftovers change what another call returns."""
+    fam = rng.choice(FAMILIES)
+    g1 = rng.choice(fam)
+    g2 = rng.choice(fam) if rng.random() < 0.6 else g1
+    # calls that differ only in what a cache key might leave out: same name and settings most of the time
+    base_name = rng.choice(NAMES)
+    base_settings = rng.choice([{}, {}, {}, {"parseinfo": True}, {"nameguard": False}, {"left_recursion": False}])
+    seqs = []
+    for g in (g1, g2):
+        how = rng.choice(["model", "model", "model", "oneshot", "parser"])
+        text = GOOD_INPUT.get(g, INPUTS[g][0]) if rng.random() < 0.75 else rng.choice(INPUTS[g])
+        seq = []
+        if how == "model":
+            c = {"op": "compile", "g": g, "name": base_name if rng.random() < 0.75 else rng.choice(NAMES), "asmodel": rng.random() < 0.4, "sem": "none",
+                 "settings": dict(base_settings) if rng.random() < 0.75 else rng.choice(SETTINGS_POOL)}
+            k = rng.random()
+            if k < 0.2:
+                c["sem"] = rng.choice(["id", "tag", "num"])
+            elif k < 0.45:
+                c["builder"] = rng.choice(BUILDER_POOL)
+            _HCTR[0] += 1
+            c["out"] = f"m{_HCTR[0]}"
+            handles[c["out"]] = c
+            seq.append(c)
+            for _ in range(rng.choice([1, 1, 2])):
+                pz = {"op": "mparse", "h": c["out"], "g": g, "text": text}
+                k = rng.random()
+                if k < 0.35:
+                    pz["asmodel"] = True
+                elif k < 0.5:
+                    pz["sem"] = rng.choice(["id", "tag", "num"])
+                elif k < 0.6:
+                    pz["start"] = rng.choice(STARTS.get(g, [None]))
+                elif k < 0.7:
+                    pz["settings"] = rng.choice([{"parseinfo": True}, {"ignorecase": True}, {"nameguard": False}, {"whitespace": ""}])
+                if rng.random() < 0.15:
+                    pz["text"] = rng.choice(INPUTS[g])
+                seq.append(pz)
+        elif how == "oneshot":
+            for _ in range(rng.choice([1, 2])):
+                pz = {"op": "parse", "g": g, "text": text, "name": base_name if rng.random() < 0.75 else rng.choice(NAMES), "asmodel": rng.random() < 0.5, "sem": "none",
+                      "settings": dict(base_settings) if rng.random() < 0.75 else rng.choice(SETTINGS_POOL)}
+                k = rng.random()
+                if k < 0.2:
+                    pz["sem"] = rng.choice(["id", "tag", "num"])
+                elif k < 0.35:
+                    pz["builder"] = rng.choice(BUILDER_POOL)
+                seq.append(pz)
+        else:
+            c = {"op": "load", "g": g, "name": rng.choice(["P", "Q", None])}
+            _HCTR[0] += 1
+            c["out"] = f"p{_HCTR[0]}"
+            handles[c["out"]] = c
+            seq.append(c)
+            for _ in range(rng.choice([1, 2, 2])):
+                pz = {"op": "pparse", "h": c["out"], "g": g, "text": text if rng.random() < 0.7 else rng.choice(INPUTS[g])}
+                k = rng.random()
+                if k < 0.3:
+                    pz["asmodel"] = True
+                elif k < 0.45:
+                    pz["sem"] = rng.choice(["id", "tag", "num"])
+                elif k < 0.6:
+                    pz["start"] = rng.choice(STARTS.get(g, [None]))
+                elif k < 0.7:
+                    pz["settings"] = rng.choice([{"parseinfo": True}, {"ignorecase": True}, {"nameguard": False}])
+                seq.append(pz)
+        seqs.append(seq)
+    # interleave, keeping each sequence's own order
+    ops = []
+    a, b = seqs
+    while a or b:
+        if a and (not b or rng.random() < 0.5):
+            ops.append(a.pop(0))
+        else:
+            ops.append(b.pop(0))
+    # sometimes a fault on one of the parses, sometimes a few unrelated calls in between
+    if rng.random() < 0.3:
+        cands = [o for o in ops if o["op"] in ("mparse", "pparse", "parse")]
+        if cands:
+            o = rng.choice(cands)
+            k = rng.random()
+            if k < 0.35:
+                o["sem"] = rng.choice(["id", "tag", "num"])
+                o["fault"] = {"kind": "failsem", "nth": 1}
+            elif k < 0.65:
+                o["sem"] = rng.choice(["id", "tag", "num"])
+                o["fault"] = {"kind": "foreign", "nth": 1, "exc": rng.choice(["KeyError", "ValueError", "SemFault"])}
+            else:
+                o["fault"] = {"kind": "interrupt", "nth": rng.choice([3, 30, 100, 300, 1000]), "exc": rng.choice(["KeyboardInterrupt", "MemoryError"])}
+    for _ in range(rng.choice([0, 0, 1, 2])):
+        ops.insert(rng.randrange(len(ops) + 1), gen_call(rng, handles, focus=fam))
+    # an inserted op may reference a handle created later in the list: keep only well-ordered ones
+    live, out = set(), []
+    for o in ops:
+        if "h" in o and o["h"] not in live:
+            continue
+        if o["op"] in ("compile", "load"):
+            live.add(o["out"])
+        if o["op"] == "drop":
+            live.discard(o["h"])
+        out.append(o)
+    return out
+
+
 def gen_spec(seed: int, mode: str | None = None) -> dict:
     rng = random.Random(derive(seed, "spec"))
     bug = random.Random(derive(seed, "buggify"))
     if mode is None:
-        mode = os.environ.get("VERIF_C10_MODE") or ("history" if rng.random() < 0.8 else "threads")
+        mode = os.environ.get("VERIF_C10_MODE") or ("history" if rng.random() < 0.65 else "threads")
     _HCTR[0] = 0
     if mode == "history":
         handles = {}
-        ops = [gen_call(rng, handles) for _ in range(rng.choice([3, 4, 5, 6, 8, 10, 14, 20]))]
+        if rng.random() < 0.35:
+            return {"property": PROP, "mode": "history", "ops": gen_pair_history(rng, handles)}
+        focus = rng.choice(FAMILIES) if rng.random() < 0.4 else None
+        ops = [gen_call(rng, handles, focus=focus) for _ in range(rng.choice([3, 4, 5, 6, 8, 10, 14, 20]))]
         return {"property": PROP, "mode": "history", "ops": ops}
     handles = {}
     prefix = []
@@ -682,6 +860,8 @@ def gen_spec(seed: int, mode: str | None = None) -> dict:
     for _ in range(rng.choice([1, 1, 2])):
         g = rng.choice(["typed", "typed_c", "ref", "choice", "kw", "params", "typed_b", "const", "over", "lrec"])
         op = {"op": "compile", "g": g, "name": rng.choice(NAMES), "asmodel": rng.random() < 0.6, "sem": "none", "settings": rng.choice([{}, {}, {"parseinfo": True}])}
+        if not op["asmodel"] and rng.random() < 0.4:
+            op["sem"] = rng.choice(["id", "tag", "num"])  # one semantics object shared by all threads through the model
         _HCTR[0] += 1
         h = f"m{_HCTR[0]}"
         op["out"] = h
@@ -697,7 +877,17 @@ def gen_spec(seed: int, mode: str | None = None) -> dict:
             if rng.random() < 0.8:
                 h = rng.choice(list(handles))
                 gg = handles[h]["g"]
-                calls.append({"op": "mparse", "h": h, "g": gg, "text": rng.choice(INPUTS[gg])})
+                call = {"op": "mparse", "h": h, "g": gg, "text": rng.choice(INPUTS[gg])}
+                k = rng.random()
+                if k < 0.15:
+                    call["start"] = rng.choice(STARTS.get(gg, [None]))
+                elif k < 0.3:
+                    call["sem"] = rng.choice(["id", "tag", "num"])
+                elif k < 0.4:
+                    call["settings"] = rng.choice([{"parseinfo": True}, {"nameguard": False}, {"ignorecase": True}])
+                elif k < 0.5 and not handles[h].get("asmodel"):
+                    call["asmodel"] = True
+                calls.append(call)
             else:
                 hs = dict(handles)
                 op = gen_call(rng, hs, models_only=True, allow_fault=False)
@@ -709,7 +899,10 @@ def gen_spec(seed: int, mode: str | None = None) -> dict:
                 calls.append(op)
         threads.append(calls)
     return {"property": PROP, "mode": "threads", "prefix": prefix, "threads": threads,
-            "knobs": {"granularity": bug.choice(["line", "line", "opcode"]), "mean_gap": bug.choice([20, 200, 2000]), "hot_boost": 10}}
+            # NOTE granularity "opcode" is implemented but not generated: CPython 3.12.1 calls a NULL c_tracefunc
+            # (legacy_tracing.c:217, SIGSEGV) when a trace function raises (RecursionError at the recursion limit) while
+            # per-instruction events are enabled on a code object
+            "knobs": {"granularity": "line", "mean_gap": bug.choice([5, 20, 200, 2000]), "hot_boost": 10}}
 
 
 # ------------------------------------------------------------------------------- running (in a forked child)
@@ -761,12 +954,16 @@ def exec_threads(spec, decider):
     sites = []
 
     def make_task(ti, calls):
-        st = {"left": 1 + sim.choose("gap", 2 * mean)}
+        st = {"left": 1 + sim.choose("gap", 2 * mean), "depth": 0}
 
         def local(frame, event, arg):
-            if event == ("opcode" if opcode else "line"):
+            if event == "return":
+                st["depth"] -= 1
+            elif event == ("opcode" if opcode else "line"):
                 st["left"] -= 1
-                if st["left"] <= 0:
+                # no switch when the traced code is deep in (runaway) recursion: the scheduler's own frames
+                # must never be the ones that hit the recursion limit
+                if st["left"] <= 0 and st["depth"] < 250:
                     hot = frame.f_code.co_name in HOT
                     m = max(2, mean // knobs["hot_boost"]) if hot else mean
                     st["left"] = 1 + sim.choose("gap", 2 * m)
@@ -781,6 +978,7 @@ def exec_threads(spec, decider):
             if event == "call" and frame.f_code.co_filename.startswith(root):
                 if opcode:
                     frame.f_trace_opcodes = True
+                st["depth"] += 1
                 return local
             return None
 
@@ -798,6 +996,9 @@ def exec_threads(spec, decider):
 
     for ti, calls in enumerate(spec["threads"]):
         sim.spawn(f"t{ti}", make_task(ti, calls))
+    # runaway recursion in the code under test must end as RecursionError, as it does on the main thread,
+    # not as a C stack overflow of a thread with the default 8 MiB stack (traced frames are deep)
+    threading.stack_size(512 * 1024 * 1024)
     sim.run_tasks(wall_timeout=100.0)
     errs = [(t.name, t.tb) for t in sim.tasks if t.exc is not None]
     after = dump_handles(H)
@@ -844,6 +1045,8 @@ def op_label(op):
         bits.append("start")
     if op.get("cfg"):
         bits.append("cfg")
+    if op.get("builder"):
+        bits.append("builder=" + "+".join(sorted(op["builder"])))
     if op.get("fault"):
         bits.append("fault=" + op["fault"]["kind"])
     return "/".join(bits)
@@ -1006,7 +1209,7 @@ def shrink_candidates(spec: dict):
                 s["ops"] = copy.deepcopy(c)
                 yield s
         for i, op in enumerate(ops):
-            for key in ("fault", "cfg", "start", "settings", "name"):
+            for key in ("fault", "cfg", "start", "settings", "name", "builder"):
                 if op.get(key):
                     s = copy.deepcopy(spec)
                     if key == "settings":
@@ -1084,7 +1287,7 @@ def family_main(argv):
     seed, first, count, stride, procs = int(seed), int(first), int(count), int(stride), int(procs)
     total = runner.run_batch(PROP, tier, seed, count, procs, float(wall), chunk=4,
                              opts={"index_map": [first, stride], "chunk_timeout": 900})
-    known, new = runner.triage(PROP, total, minimise_budget=90.0)
+    known, new = runner.triage(PROP, total, minimise_budget=40.0, max_reports=2)
     total["digests"] = sorted(total["digests"])
     total["state_sigs"] = sorted(total["state_sigs"])
     total["probes"] = dict(total["probes"])
